@@ -21,7 +21,7 @@ class C15Run(E2Run):
     prop = "C15"
 
     def profile(self) -> Dict:
-        return {"topologies": ["lan"], "max_hosts_per_subnet": 1, "initial_files": 0.7, "tight_links": 0.0, "avoid": ["listen_on_ports", "routing_loop"]}
+        return {"topologies": ["lan"], "max_hosts_per_subnet": 1, "initial_files": 0.7, "tight_links": 0.0, "avoid": ["listen_on_ports"]}
 
     def after_build(self):
         self.hosts = [n for n in self.network.nodes.values() if hasattr(n, "file_system") and n.__class__.__name__ in ("Computer", "Server", "Printer")]
